@@ -51,57 +51,52 @@ theorem cache_read_once (st : State α) (hc : st.left.cached = true) (ht : st.le
   obtain ⟨a, h⟩ := runFrom_leftDone ops st i st.qL ⟨hc, ht, rfl⟩
   exact ⟨a, h.queue⟩
 
-/-- **C11 (read once), right side cached** (then the left side is not, binary.rs:136-139, and it has
-    ≥ 1 replica). `hfresh`/`hfin` hold initially and are preserved by every step (they are fields of
-    the invariant `RightDone`): until the cache is full, `cache_pointer = cache.len()`
-    (binary.rs:185); an uncached side has an empty cache. -/
-theorem cache_read_once_right (st : State α) (hc : st.right.cached = true) (ho : st.left.cached = false)
-    (ht : st.right.missingTerm = 0) (hn : 0 < st.left.instances)
-    (hfresh : st.right.cacheFull = false → st.right.cache.length ≤ st.right.cachePointer)
-    (hfin : st.left.cacheFinished = true)
-    (i : Nat) (ops : List (Op α)) :
-    ∃ added, (runFrom st i ops).1.qR = st.qR ++ added := by
-  obtain ⟨a, h⟩ := runFrom_rightDone ops st i st.qR ⟨hc, ho, ht, rfl, hn, hfresh, hfin⟩
-  exact ⟨a, h.queue⟩
-
-/-- **F6 — `cache_replayed_each_round` is false for the unchanged code.** Left side cached with one
-    replica (one element `41`), loop side with TWO replicas, one round; the loop side is fast (the
-    batch that ends the round and the first `Terminate` are in the channel together, so no receive
-    times out at the round boundary). The cached element and the End marker are presented once more
-    between the last `FlushAndRestart` and `Terminate`. -/
-theorem cache_replay_counterexample :
+/-- Former finding F6 (fixed by 6c83288), now the right output: left side cached with one replica
+    (one element `41`), loop side with TWO replicas, one round, the batch that ends the round and
+    the first `Terminate` are in the channel together. Nothing follows the `FlushAndRestart` but
+    `Terminate`. (Before the fix: `… far, item (left 41), item leftEnd, term`.) -/
+example :
     let h : List (Op Nat) :=
       Op.b true 0 [.item 41, .far, .term] ++ Op.b false 0 [.far] ++ [.enq false 1 [.far]]
         ++ Op.b false 0 [.term] ++ Op.b false 1 [.term]
     run 1 2 true false h =
-      ([.item (.left 41), .item .leftEnd, .item .rightEnd, .far,
-        .item (.left 41), .item .leftEnd, .term], .done)
-    ∧ c11Ok true (run 1 2 true false h).1 = false := by
+      ([.item (.left 41), .item .leftEnd, .item .rightEnd, .far, .term], .done)
+    ∧ c11Ok true (run 1 2 true false h).1 = true := by
   decide
 
-/-- F6 with the right side cached (mirror image). -/
-theorem cache_replay_right_counterexample :
+/-- Former finding F6 with the right side cached (mirror image). -/
+example :
     let h : List (Op Nat) :=
       Op.b false 0 [.item 41, .far, .term] ++ Op.b true 0 [.far] ++ [.enq true 1 [.far]]
         ++ Op.b true 0 [.term] ++ Op.b true 1 [.term]
     run 2 1 false true h =
-      ([.item (.right 41), .item .rightEnd, .item .leftEnd, .far,
-        .item (.right 41), .item .rightEnd, .term], .done)
-    ∧ c11Ok false (run 2 1 false true h).1 = false := by
+      ([.item (.right 41), .item .rightEnd, .item .leftEnd, .far, .term], .done)
+    ∧ c11Ok false (run 2 1 false true h).1 = true := by
   decide
 
-/-- **F6b — a receive timeout at the round boundary loses `first_message`.** ONE loop-side replica;
-    every batch is followed by a pull up to the receive timeout (the loop side is slower than
-    `max_delay`). The cache is replayed after the last `FlushAndRestart`. -/
-theorem cache_replay_timeout_counterexample :
+/-- Former finding F6b (fixed by 14727d5): ONE loop-side replica, every batch is followed by a pull
+    up to the receive timeout (the loop side is slower than `max_delay`); the timeout at the round
+    boundary no longer loses `first_message`. -/
+example :
     let h : List (Op Nat) :=
       Op.b true 0 [.item 41, .far, .term] ++ Op.b false 0 [.far] ++ Op.b false 0 [.term]
     run 1 1 true false h =
-      ([.item (.left 41), .item .leftEnd, .item .rightEnd, .far,
-        .item (.left 41), .item .leftEnd, .term], .done)
-    ∧ c11Ok true (run 1 1 true false h).1 = false := by
+      ([.item (.left 41), .item .leftEnd, .item .rightEnd, .far, .term], .done)
+    ∧ c11Ok true (run 1 1 true false h).1 = true := by
   decide
 
+/-- Two loop-side replicas, two rounds, a receive timeout after every batch (also at both round
+    boundaries): round 2 presents the cached side exactly as round 1. -/
+example :
+    let h : List (Op Nat) :=
+      Op.b true 0 [.item 41, .far, .term] ++ Op.b false 0 [.far] ++ Op.b false 1 [.far]
+        ++ Op.b false 1 [.item 5] ++ Op.b false 0 [.far] ++ Op.b false 1 [.far]
+        ++ Op.b false 1 [.term] ++ Op.b false 0 [.term]
+    run 1 2 true false h =
+      ([.item (.left 41), .item .leftEnd, .item .rightEnd, .far,
+        .item (.right 5), .item (.left 41), .item .leftEnd, .item .rightEnd, .far, .term], .done)
+    ∧ c11Ok true (run 1 2 true false h).1 = true := by
+  decide
 
 /-- **C11 (the end is propagated once).** For every history from a state whose `Start` has not
     terminated (every parallelism, every interleaving, cached or not): `Terminate` occurs in the
